@@ -9,8 +9,8 @@ from formulint.core import AnalysisError
 rid, prop = sys.argv[1], sys.argv[2]
 d = os.path.join(VERIF, "refactors" if os.path.isdir(os.path.join(VERIF, "refactors", rid)) else "seeded", rid)
 ov = overlay_for(os.path.join(d, "patch.diff")) if rid != "clean" else None
-for mode in ("FORMULINT_RAW_ONLY", "FORMULINT_NORMALISED_ONLY"):
-    os.environ.pop("FORMULINT_RAW_ONLY", None); os.environ.pop("FORMULINT_NORMALISED_ONLY", None)
+for mode in ("FORMULINT_RAW_ONLY", "FORMULINT_NORMALISED_ONLY", "FORMULINT_STATEMENTS_ONLY"):
+    os.environ.pop("FORMULINT_RAW_ONLY", None); os.environ.pop("FORMULINT_NORMALISED_ONLY", None); os.environ.pop("FORMULINT_STATEMENTS_ONLY", None)
     os.environ[mode] = "1"
     print("=====", mode)
     from formulint import rules as rules_pkg
